@@ -2,7 +2,7 @@ CONSTANTS
   BrokerNames = {"http-root", "https-root", "https-port", "https-nodir"}
   FrontNames = {"none", "front"}
   CacheNames = {"none", "root", "path"}
-  Statuses = {200, 204, 302, 404, 500}
+  Statuses = {101, 200, 204, 206, 301, 302, 303, 304, 307, 308, 404, 500}
   SizeNames = {"0", "small", "limit-1", "limit", "limit+1", "2limit"}
   PollLens = {0, 300}
   MaxPolls = 3
